@@ -34,6 +34,7 @@ type Obligation struct {
 	ModelQ  []string // terms to evaluate in a model
 	sibling *Obligation
 	vc      *VC
+	ResultSVs []SV // post obligations: the symbolic results of the return the clause is checked at
 	Regioned   bool   // sibling of a known finding: the same obligation restricted to inputs outside the finding's region
 	Model      map[string]string
 	Replayed   bool
@@ -106,6 +107,8 @@ type VC struct {
 	epochN  int
 	regions map[string]string
 	curBind map[string]ssa.Value // bindings of the closure being called (closurefv.go)
+	curTerms map[string]SV       // captproj.go (x-c17): captured-variable terms at a call through a fnfield
+	defers   []*ssa.Defer        // captproj.go (x-c17): deferred contracted literals, in registration order
 	noFacts int // >0 while evaluating under a specification quantifier: emit no ground facts
 	hdr         map[*ssa.BasicBlock]*headerSnap // effects.go: state at loop headers (for prev())
 	iterChecked map[*Clause]bool                 // effects.go: `loop k ensures` clauses checked at some back edge
